@@ -58,19 +58,161 @@ def _runs(events):
     return [(starts[k], starts[k + 1]) for k in range(len(starts) - 1)]
 
 
+def scripts(tier):
+    """one operation held at a schedule point (gate) while others run to completion: the
+    interleaving shape of the model's counterexamples, enumerated over small menus"""
+    import itertools, random
+    U = lambda a, b: dict(op="union", a=a, b=b)
+    F = lambda a: dict(op="find", a=a, b=0)
+    S = lambda a, b: dict(op="same", a=a, b=b)
+    setups = [[], [U(2, 3)], [U(2, 3), U(1, 2)], [U(0, 1)]]
+    helds = [U(2, 3), U(1, 3), U(0, 3), F(3), S(1, 3), S(0, 3)]
+    menu = [U(1, 2), U(0, 1), U(0, 2), F(3), F(2), S(2, 3)]
+    durings = [[m] for m in menu] + [list(p) for p in itertools.product(menu, repeat=2)]
+    out = []
+    for st in setups:
+        for h in helds:
+            for g in (30, 31, 32):
+                for d in durings:
+                    out.append(dict(n=4, cap=2, setup=st, held=h, gate=g, during=d))
+    # the model's counterexample (MC_ConcUF_A_strict) first
+    first = dict(n=4, cap=2, setup=[], held=U(2, 3), gate=30, during=[U(1, 2), F(3)])
+    if tier == "quick":
+        random.Random(core.seed()).shuffle(out)
+        out = out[:500]
+    return [first] + out
+
+
+CONC_MODELS = [("MC_ConcUF_A.cfg", "UFSafe"), ("MC_ConcUF_B.cfg", "UFSafe"), ("MC_ConcUF_D.cfg", "UFSafe"), ("MC_ConcUF_A_strict.cfg", "StrictLin")]
+
+
+def conc_part(tier, V, cov):
+    from concurrent.futures import ThreadPoolExecutor
+    from . import sess
+    models = list(CONC_MODELS) + ([("MC_ConcUF_C.cfg", "UFSafe")] if tier == "thorough" else [])
+    states = trans = 0
+    cov["conc_models"] = {}
+
+    def run_model(m):
+        return m, core.run_tlc("MC_ConcUF", cfg=m[0], workers=4, timeout=3000, xmx="6g")
+    with ThreadPoolExecutor(max_workers=3) as ex:
+        for (cfg, inv), res in ex.map(run_model, models):
+            if res.invariant:
+                V.violation("model:ConcUF:%s:%s" % (cfg.replace("MC_ConcUF_", "").replace(".cfg", ""), res.invariant),
+                            "ConcUF (%s) violates %s\n%s" % (cfg, res.invariant, res.error_text()[:2500]),
+                            dict(kind="model", module="MC_ConcUF", cfg=cfg, invariant=res.invariant))
+            elif not res.noerror:
+                raise core.ToolError("TLC did not finish on %s: %s" % (cfg, res.error_text()[:500]))
+            else:
+                missing = [a for a in ("Grow", "Call", "FLoad1", "FLoad2", "FSplit", "MCmp", "MCas") if res.actions.get(a, [0, 0])[1] == 0]
+                if missing:
+                    raise core.ToolError("vacuity: actions never taken in %s: %s" % (cfg, missing))
+            states += res.distinct
+            trans += res.generated
+            cov["conc_models"][cfg] = dict(invariant=inv, states=res.distinct, generated=res.generated, violated=res.invariant,
+                                           actions={a: v[1] for a, v in res.actions.items() if v[1] and a[0].isupper()})
+    wd = core.workdir("c17c")
+    scs = scripts(tier)
+    sp = os.path.join(wd, "scripts.ndjson")
+    core.write_ndjson(sp, scs)
+    nrand = 400 if tier == "quick" else 6000
+    jobs = [("s", 0)] + [("r", core.seed() + i) for i in range(1 if tier == "quick" else 4)]
+
+    def run_job(job):
+        kind, sd = job
+        out = os.path.join(wd, "cuf_%s_%d.ndjson" % (kind, sd))
+        args = ["cuf", "--out", out] + (["--scripts", sp] if kind == "s" else ["--random", str(nrand), "--seed", str(sd), "--perturb", "400"])
+        p = core.conform(args, timeout=3000)
+        info = json.loads(p.stdout.strip().splitlines()[-1])
+        events, bads, diffs, res = sess.validate(out, module="ConcUF_Trace", timeout=3000)
+        return kind, sd, info, events, bads
+    nsc = nev = reached = 0
+    points = {}
+    sample = None
+    with ThreadPoolExecutor(max_workers=3) as ex:
+        for kind, sd, info, events, bads in ex.map(run_job, jobs):
+            nev += len(events)
+            begins = [i for i, e in enumerate(events) if e["e"] == "u_begin"]
+            nsc += len(begins)
+            reached += sum(1 for i in begins if events[i].get("reached") == 1)
+            for i, c in enumerate(info["points"]):
+                if c:
+                    points[str(i)] = points.get(str(i), 0) + c
+            if sample is None and kind == "r":
+                sample = [{k: v for k, v in e.items() if k != "script"} for e in events[:10]]
+            seen = set()
+            for idx, code in bads:
+                start = max(i for i in begins if i <= idx)
+                b = events[start]
+                key = "conc:%s:%s" % (code, b["kind"])
+                if key in seen:
+                    continue
+                seen.add(key)
+                V.violation(key, "%s: %s scenario %s; history: %s" % (code, b["kind"], json.dumps(b.get("script", dict(k=b.get("k"), seed=sd)))[:300],
+                                                                     json.dumps([{k: v for k, v in e.items() if k != "th"} for e in events[start + 1: idx + 1]])[:700]),
+                            dict(kind="cuf", scenario=b.get("kind"), script=b.get("script"), seed=sd, random=nrand, k=b.get("k"),
+                                 ops=b["ops"], history=events[start + 1: idx + 1], code=code))
+    missing = [p for p in (30, 31, 32, 33, 34) if not points.get(str(p))]
+    if missing:
+        raise core.ToolError("vacuity: union-find schedule points never passed: %s (hooks not compiled in?)" % missing)
+    if reached < len(scs) // 4:
+        raise core.ToolError("vacuity: only %d of %d scripted scenarios reached their gate" % (reached, len(scs)))
+    cov["conc_traces"] = dict(scenarios=nsc, scripted=len(scs), scripted_gate_reached=reached, random=nsc - len(scs), events=nev, points=points)
+    return states, trans, nsc, sample
+
+
+def replay(d, path):
+    from . import sess
+    r = d["replay"]
+    wd = core.workdir("c17_replay")
+    out = os.path.join(wd, "t.ndjson")
+    if r.get("kind") == "cuf" and r.get("script"):
+        sp = os.path.join(wd, "s.ndjson")
+        core.write_ndjson(sp, [r["script"]])
+        core.conform(["cuf", "--scripts", sp, "--out", out])
+    elif r.get("kind") == "cuf":
+        core.conform(["cuf", "--random", str(r["random"]), "--seed", str(r["seed"]), "--perturb", "400", "--out", out])
+    elif r.get("kind") == "uf_seq":
+        rp = os.path.join(wd, "r.ndjson")
+        core.write_ndjson(rp, [r["ops"]])
+        core.conform(["uf", "--replays", rp, "--out", out])
+        tv = core.validate_trace("UnionFind_Trace", out)
+        print("replay: accepted=%s consumed=%d/%d" % (tv["accepted"], tv["consumed"], tv["total"]))
+        if not tv["accepted"]:
+            print("VIOLATION property=C17 replay=%s" % path)
+        return 0 if tv["accepted"] else 1
+    else:
+        print("no replay handler")
+        return 2
+    events, bads, diffs, res = sess.validate(out, module="ConcUF_Trace")
+    for e in events[:40]:
+        if e["e"] != "u_begin":
+            print("  ", json.dumps(e))
+    for i, c in bads[:10]:
+        print("BAD at event %d: %s" % (i, c))
+    if bads:
+        print("VIOLATION property=C17 replay=%s" % path)
+        return 1
+    print("replay: history accepted")
+    return 0
+
+
 def check(tier):
     t0 = time.time()
     V = core.Verdict(PID)
     cov = {}
     res, runs, distinct, sample, _ = seq_part(tier, V, cov)
-    coverage = dict(states=res.distinct, transitions=max(res.generated - 1, 1),
-                    traces_validated_against_impl=runs,
-                    samples=[dict(kind="replayed transition-cover prefix (sequential union-find)", ops=sample)],
-                    evaluations=runs, distinct_nontrivial=distinct,
+    cstates, ctrans, cscen, csample = conc_part(tier, V, cov)
+    coverage = dict(states=res.distinct + cstates, transitions=max(res.generated - 1, 1) + ctrans,
+                    traces_validated_against_impl=runs + cscen,
+                    samples=[dict(kind="replayed transition-cover prefix (sequential union-find)", ops=sample),
+                             dict(kind="concurrent scenario (call/return history)", events=csample)],
+                    evaluations=runs + cscen, distinct_nontrivial=distinct,
                     rule="one run per transition of the quotient state graph of MC_UnionFind plus seeded random call sequences; distinct = distinct call sequences",
                     exhaustive=False, detail=cov)
     rc = V.finish()
     core.write_evidence(PID, tier, "model_checking", coverage, time.time() - t0, len(V.violations),
-                        ["TLC explores the sequential model exhaustively at the stated N only",
-                         "trace validation checks the runs that were executed, not all runs"])
+                        ["TLC explores the sequential model exhaustively at the stated N only; the concurrent model on four fixed 2-3 thread programs over 4 ids (sequentially consistent memory)",
+                         "trace validation checks the runs that were executed, not all runs: OS schedules of the concurrent structure are sampled (seeded perturbation) and directed (one operation held at a gate while others complete)",
+                         "a linking union whose returned parent is no longer a root is reported separately (known finding) from histories that are not linearizable even with the relaxed meaning of that return value"])
     return rc
